@@ -154,7 +154,7 @@ def ensure_runner(timeout=900):
     ok, out = ensure_makefile()
     if not ok:
         return False, out
-    rc, out = sh("make -j16 Model/Obs.vo Model/Conc.vo Model/Server.vo Model/Config.vo", cwd=COQ, timeout=timeout)
+    rc, out = sh("make -j16 Model/Obs.vo Model/Conc.vo Model/Server.vo Model/Config.vo Model/PolConc.vo", cwd=COQ, timeout=timeout)
     if rc != 0:
         return False, out
     model_vos = [os.path.join(COQ, "Model", f) for f in os.listdir(os.path.join(COQ, "Model")) if f.endswith(".vo")]
@@ -248,7 +248,10 @@ def replay_trace(trace_lines, work, tag, profile="seq"):
     iobs = os.path.join(work, tag + ".impl")
     mobs = os.path.join(work, tag + ".model")
     open(tin, "w").write("\n".join(trace_lines) + "\n")
-    rc, out = sh([HBIN, profile + "-replay", "--in", tin, "--trace", tout, "--obs", iobs], timeout=300)
+    cmd = [HBIN, profile + "-replay", "--in", tin, "--trace", tout, "--obs", iobs]
+    if profile == "seq":
+        cmd += ["--stall", "5"]   # a request that does not come back within 5 s is a hang
+    rc, out = sh(cmd, timeout=300)
     if rc != 0:
         return ("harness-failed", out, "")
     ok, out = run_model(tout, mobs, socket=(profile == "conn"))
@@ -262,7 +265,7 @@ def replay_trace(trace_lines, work, tag, profile="seq"):
 
 def minimize(trace_lines, work, profile="seq"):
     """delta-debug the event lines of one case (header kept), re-running both sides"""
-    if profile in ("conc", "limit", "cfg"):
+    if profile in ("conc", "pol", "limit", "cfg"):
         return trace_lines  # threads + schedule / timed lifecycles: kept whole
     header, events = trace_lines[0], [l for l in trace_lines[1:] if l[:1] not in "OG"]
     def rt(lines, work, tag):
@@ -271,7 +274,8 @@ def minimize(trace_lines, work, profile="seq"):
         return trace_lines  # not reproducible without oracle lines (random evictions): keep as is
     n = 2
     budget = 200
-    while len(events) >= 2 and budget > 0:
+    t_end = time.time() + 150
+    while len(events) >= 2 and budget > 0 and time.time() < t_end:
         chunk = max(1, len(events) // n)
         reduced = False
         for i in range(0, len(events), chunk):
@@ -382,7 +386,7 @@ PROPS = {
     "C03": {"seq": [("cas", 1024, None, 20, 30)], "conc": [("base", 500)], "relevant": "RMT"},
     "C04": {"seq": [("counter", 1024, None, 20, 30)], "conc": [("rmw", 500)], "relevant": "RMT",
             "known_classes": True},
-    "C16": {"seq": [("policy", 1024, 200, 10, 30)], "conc": [("base", 250), ("rmw", 250)], "sweep": 300, "relevant": "T",
+    "C16": {"seq": [("policy", 1024, 200, 10, 30)], "conc": [("base", 250), ("rmw", 250)], "sweep": 300, "pol": 100, "relevant": "T",
             "monitor_kinds": ["STUCK"]},
     "C05": {"seq": [("ttl", 1024, None, 80, 50), ("flush", 1024, None, 60, 50), ("mix", 1024, None, 30, 40)],
             "relevant": "RMW"},
@@ -409,10 +413,11 @@ PROPS = {
             "relevant": "RSMW"},
     "C14": {"seq": [("policy", 1024, 100, 40, 60), ("policy", 1024, 300, 40, 60), ("policy", 1024, 30, 20, 60),
                     ("policy", 1024, 1000, 30, 60), ("counter", 1024, 120, 20, 50), ("flush", 1024, 200, 20, 50)],
-            "conn": [("policy", 1024, 300, 15, 30)], "relevant": "UMR"},
+            "conn": [("policy", 1024, 300, 15, 30)], "pol": 150, "relevant": "UMRP",
+            "monitor_kinds": ["ACCT", "BOUND", "STUCK"]},
     "C15": {"seq": [("policy", 1024, 100000, 40, 80), ("policy", 1024, 400, 40, 60), ("ttl", 1024, 500, 30, 60),
                     ("flush", 1024, 500, 30, 60), ("cas", 1024, 500, 30, 50), ("counter", 1024, 500, 20, 50)],
-            "relevant": "UMR"},
+            "pol": 150, "relevant": "UMRP", "monitor_kinds": ["ACCT", "BOUND", "STUCK"]},
     "C17": {"seq": [("mix", 1024, None, 10, 20)], "limit": 8, "relevant": "V", "no_minimize": True},
     "C20": {"seq": [("mix", 1024, 1000000, 30, 40), ("mix", 1024, None, 10, 30)], "cfg": 8, "relevant": "RSCT"},
     "C18": {"seq": [("cuts", 1024, None, 60, 30), ("malformed", 1024, None, 40, 30)],
@@ -422,7 +427,7 @@ PROPS = {
             "relevant": "RMW"},
 }
 
-KINDS = {"R": "responses", "S": "connection status", "M": "store content", "U": "accounting", "T": "operation results under a schedule", "W": "frame monitor", "V": "which connections are served", "N": "connection not served"}
+KINDS = {"R": "responses", "S": "connection status", "M": "store content", "U": "accounting", "T": "operation results under a schedule", "P": "operation results under a schedule (policy store)", "W": "frame monitor", "V": "which connections are served", "N": "connection not served"}
 
 
 def load_known():
@@ -536,6 +541,41 @@ def run_conc_suites(prop, cfg, tier, seed, work, report):
                     cs = split_cases(txt)
                     if cs:
                         report["samples"].append({"suite": tag, "trace": cs[0][1][:14]})
+                report["suites"].append(tag)
+    if cfg.get("pol"):
+        # the random eviction policy under controlled schedules: implementation vs Model/PolConc.v
+        tag = "conc_pol"
+        tout, iobs, mobs, mon, st = [os.path.join(work, tag + e) for e in (".trace", ".impl", ".model", ".monitor", ".stats")]
+        cmd = [HBIN, "pol-gen", "--seed", str(seed), "--cases", str(cfg["pol"] * mult),
+               "--trace", tout, "--obs", iobs, "--monitor", mon, "--stats", st]
+        rc, out = sh(cmd, timeout=3000)
+        if rc != 0:
+            report["errors"].append("harness failed on suite %s: %s" % (tag, out[-500:]))
+        else:
+            ok, out = run_model(tout, mobs)
+            if not ok:
+                report["errors"].append("runner failed on %s: %s" % (tag, out[-500:]))
+            else:
+                d, ncs = compare(tout, iobs, mobs)
+                report["cases"] += ncs
+                report["conc_cases"] = report.get("conc_cases", 0) + ncs
+                stj = json.load(open(st))
+                report["events"] += stj.get("conc_steps", 0)
+                report["distribution"]["policy_conc_steps"] = report["distribution"].get("policy_conc_steps", 0) + stj.get("conc_steps", 0)
+                txt = open(tout).read()
+                for kind in ("set", "get", "del", "flush"):
+                    report["distribution"]["policy_conc_" + kind] = sum(l.count(kind + ":") for l in txt.splitlines() if l.startswith("PTH "))
+                report["distribution"]["policy_conc_scans"] = sum(len(l.split(";")) for l in txt.splitlines() if l.startswith("PSCANS ") and l != "PSCANS none")
+                traces = dict(split_cases(txt))
+                for x in d:
+                    diffs.append((tag,) + x)
+                for line in open(mon).read().splitlines():
+                    p = line.split(" ")
+                    monitor.append({"kind": p[0], "case": p[1], "class": p[2] if len(p) > 2 else "", "trace": traces.get(p[1], []), "suite": tag})
+                if not report["samples"]:
+                    cs = split_cases(txt)
+                    if cs:
+                        report["samples"].append({"suite": tag, "trace": [l[:160] for l in cs[0][1][:12]]})
                 report["suites"].append(tag)
     if cfg.get("sweep"):
         tag = "sweep"
